@@ -253,6 +253,10 @@ var templates = []string{
 	"NF { cmd = \"echo sh-\" NR \"-\" length($0) \"-\" NF; cmd | getline r; close(cmd); print \"got\", r }",
 	"NR <= 3 { system(\"echo sys-\" NR \"-\" length($0)) }",
 	"NR == 1 { print \"piped \" length($0) | \"cat\"; close(\"cat\") }",
+	// range patterns, left open or closed at the end of the input: where the range stands is state of the run
+	"$1 == \"aab\", $1 == \"zzz\" { print \"open-range\", NR, $0 }",
+	"/^a/, /x/ { rng++ } END { print \"range\", rng + 0 }",
+	"NR == 2, NR == 3 { print \"r23\", $0 }\n$1 == \"hello\", 0 { print \"tail\", NR; if (NR > 3) exit }",
 	// a command read with getline that also writes to its standard error, while the program goes on printing: the
 	// configuration gives Output and Error the same writer, so the child's stderr and the program's own output meet
 	// there (the order of the lines is not defined: execOnce compares them sorted)
